@@ -162,7 +162,7 @@ func RunQProgramForced(rng *core.Rng, p QProgram, forced []int, systematic bool)
 		obsRng := rng.Fork()
 		start(role, func() {
 			for k := 0; k < 3; k++ {
-				switch obsRng.Intn(3) {
+				switch obsRng.Intn(4) {
 				case 0:
 					o := h.CallOp(role, "size", "")
 					o.N = q.GetSize()
@@ -170,6 +170,11 @@ func RunQProgramForced(rng *core.Rng, p QProgram, forced []int, systematic bool)
 				case 1:
 					o := h.CallOp(role, "empty", "")
 					o.Empty = q.IsEmpty()
+					h.RetOp(o)
+				case 3:
+					// String() formats the queue through its own Sequential methods
+					o := h.CallOp(role, "string", "")
+					_ = fmt.Sprint(q)
 					h.RetOp(o)
 				default:
 					o := h.CallOp(role, "array", "")
@@ -345,6 +350,9 @@ func CheckStream(r *SResult) []Finding {
 		if len(r.AfterEnd[i]) > 0 {
 			add("stream/"+p.Shape+"/delivery-after-closure", "output %d holds %v after it reported closure", i, r.AfterEnd[i])
 		}
+	}
+	if r.Sched.WaitEarly != "" {
+		add("stream/"+p.Shape+"/wait-returned-early", "%s", r.Sched.WaitEarly)
 	}
 	if r.Counter != 0 {
 		add("stream/"+p.Shape+"/group-counter", "the caller's wait group counter is %d after everything ended", r.Counter)
